@@ -4,6 +4,8 @@ import BctVerif.Lemmas.ClusterReal
 import BctVerif.Props.C03
 import BctVerif.Props.C08
 import BctVerif.Props.C15
+import BctVerif.Model.LocalEff
+import BctVerif.Model.Measures
 /-!
 # C10 — weighted measures reduce to binary on 0/1 input, directed to undirected on symmetric input
 
@@ -12,7 +14,9 @@ import BctVerif.Props.C15
 * distance, betweenness, edge betweenness, global efficiency, and the weight-ignoring `distance_bin`, `efficiency_bin`,
   `reachdist`, `kcore_bd/bu`: corollaries of the correctness theorems of the C03 / C08 / C15 slices, about *their*
   executable models (`Bct.Dist`, `Bct.Between`, `Bct.Core`);
-* **no theorem** (Python predicate on the real code only): local efficiency, `assortativity_wei/bin`, and the
+* local efficiency: theorems about the executable model `BctVerif/Model/LocalEff.lean` (both loops, distances through
+  `Bct.Dist`); undirected assortativity: about `assortativityBin` / `assortativityWei0` of `BctVerif/Model/Measures.lean`;
+* **no theorem** (Python predicate on the real code only): the hop-count output of `distance_wei` and the
   weight-ignoring `density_*`, `breadthdist`, `kcoreness_centrality_*`, `edge_nei_overlap_*`, `findwalks`,
   `get_components`, `assortativity_bin`, `efficiency_bin(local)`.
 
@@ -90,6 +94,71 @@ theorem ebetw_wei_eq_bin_on01 (L : AMat Nat n) (hbin : ∀ i j, L.get i j ≤ 1)
 theorem betw_wei_eq_bin_on01 (L : AMat Nat n) (hbin : ∀ i j, L.get i j ≤ 1) (hdiag : ∀ i, L.get i i = 0) :
     (Between.brandes true L).map Prod.snd = Between.betweennessBin L := by
   rw [C08.betweenness_wei_correct, C08.betweennessBin_correct L hbin hdiag]
+
+/-! ## weighted = binary on 0/1 input: local efficiency (model `BctVerif/Model/LocalEff.lean`) -/
+
+theorem subMat_bin (G : AMat Rat n) (hbin : ∀ i j, G.get i j = 0 ∨ G.get i j = 1) (V : List (Fin n)) :
+    ∀ a b, (LocalEff.subMat G V).get a b = 0 ∨ (LocalEff.subMat G V).get a b = 1 := by
+  intro a b; simp only [LocalEff.subMat, AMat.get_ofFn]; exact hbin _ _
+
+/-- `efficiency_wei(G, local=True)[u] = efficiency_bin(G, local=True)[u]` on every 0/1 matrix, directed or undirected
+(on 0/1 input the cube-root matrix is the matrix itself: `rootMat_on01`) -/
+theorem localeff_wei_eq_bin_on01_node (G : AMat Rat n) (hbin : ∀ i j, G.get i j = 0 ∨ G.get i j = 1) (u : Fin n) :
+    LocalEff.effWeiNode G G u = LocalEff.effBinNode G u := by
+  have hA : Cluster.adj G = G := by rw [adj_eq]; exact adj_of_bin hbin
+  unfold LocalEff.effBinNode
+  rw [hA]
+  unfold LocalEff.effWeiNode LocalEff.effBinOn
+  simp only [hA]
+  obtain ⟨D, B, h1, h2⟩ := dist_wei_eq_bin_on01 (LocalEff.subMat G (LocalEff.nbrs G u)) (subMat_bin G hbin _)
+  rw [lenMat_inv_on01 _ (subMat_bin G hbin _), h1, h2]
+
+theorem localeff_wei_eq_bin_on01 (G : AMat Rat n) (hbin : ∀ i j, G.get i j = 0 ∨ G.get i j = 1) :
+    LocalEff.localEffWei G G = LocalEff.localEffBin G := by
+  unfold LocalEff.localEffWei LocalEff.localEffBin
+  congr 1; funext u; exact localeff_wei_eq_bin_on01_node G hbin u
+
+/-- the same through the executable cube root -/
+theorem localeff_wei_eq_bin_on01_exec (G : AMat Rat n) (hbin : ∀ i j, G.get i j = 0 ∨ G.get i j = 1) :
+    (rootMat G).map (LocalEff.localEffWei G) = some (LocalEff.localEffBin G) := by
+  rw [Cluster.rootMat_on01 hbin, Option.map_some, localeff_wei_eq_bin_on01 G hbin]
+
+/-- **spec** of `efficiency_bin(local=True)`: the value at `u` is `LocalEff.core` (numerator `Σ_{a,b} sa_a sa_b (1/d_ab + 1/d_ba) / 2`
+over `(Σ sa)² − Σ sa²`) evaluated at the *true* hop distances `d` inside the sub-graph induced by the in/out neighbours of `u` -/
+theorem localeff_bin_spec (G : AMat Rat n) (u : Fin n) :
+    ∃ D : AMat Dist.Ext (LocalEff.nbrs (Cluster.adj G) u).length,
+      Dist.IsDist (Dist.hopLen (LocalEff.subMat (Cluster.adj G) (LocalEff.nbrs (Cluster.adj G) u))) (Dist.lenFun D) ∧
+      LocalEff.effBinNode G u = LocalEff.core (LocalEff.links (Cluster.adj G) u _) (LocalEff.links (Cluster.adj G) u _) D := by
+  obtain ⟨D, hD⟩ := C03.distBin_total (LocalEff.subMat (Cluster.adj G) (LocalEff.nbrs (Cluster.adj G) u))
+  refine ⟨D, C03.distBin_isDist _ D hD, ?_⟩
+  unfold LocalEff.effBinNode LocalEff.effBinOn
+  simp only [hD]
+
+/-- **spec** of `efficiency_wei(local=True)` (non-negative cube roots `R`): `LocalEff.core` at the true weighted distances,
+with connection lengths `1/R`, inside the neighbourhood sub-graph -/
+theorem localeff_wei_spec (W R : AMat Rat n) (hR : C03.NonNeg R) (u : Fin n) :
+    ∃ D : AMat Dist.Ext (LocalEff.nbrs W u).length,
+      Dist.IsDist (Dist.lenFun (Dist.lenMat .inv (LocalEff.subMat R (LocalEff.nbrs W u)))) (Dist.lenFun D) ∧
+      LocalEff.effWeiNode W R u = LocalEff.core (LocalEff.links R u _) (LocalEff.links (Cluster.adj W) u _) D := by
+  obtain ⟨D, B, hD⟩ := C03.dijkstra_total (Dist.lenMat .inv (LocalEff.subMat R (LocalEff.nbrs W u)))
+  have hsub : C03.NonNeg (LocalEff.subMat R (LocalEff.nbrs W u)) := by
+    intro a b; simp only [LocalEff.subMat, AMat.get_ofFn]; exact hR _ _
+  refine ⟨D, C03.dijkstra_isDist .inv _ hsub D B hD, ?_⟩
+  unfold LocalEff.effWeiNode
+  simp only [hD]
+
+/-! ## weighted = binary on 0/1 input: undirected assortativity (model `BctVerif/Model/Measures.lean`, flag 0) -/
+
+/-- `assortativity_wei(A, 0) = assortativity_bin(A, 0)` on every 0/1 matrix (strengths = degrees; both list the edges of
+`np.triu(A, 1) > 0`) -/
+theorem assort_wei_eq_bin_on01 (A : AMat Int n) (h01 : ∀ i j, A.get i j = 0 ∨ A.get i j = 1) :
+    Measures.assortativityBin A 0 = .ok (Measures.assortativityWei0 A) := by
+  have hb : Measures.bin A = A := AMat.ext_get fun i j => by
+    simp only [Measures.bin, AMat.get_ofFn, Measures.nz]
+    rcases h01 i j with h | h <;> simp [h]
+  have hd : Measures.degreesUnd A = Measures.strengthsUnd A := by
+    unfold Measures.degreesUnd Measures.strengthsUnd; rw [hb]
+  simp only [Measures.assortativityBin, Measures.assortativityWei0, hd]
 
 /-! ## directed = undirected on symmetric input -/
 
@@ -191,6 +260,8 @@ def R3 : AMat ℚ 3 := AMat.ofFn fun i j => if i = j then 0 else 1/2
 noncomputable def H3 : AMat ℝ 3 := AMat.ofFn fun i j => if i = j then 0 else if i.val + j.val = 1 then -3/10 else 1/2
 def L3 : AMat Nat 3 := AMat.ofFn fun i j => if j.val = (i.val + 1) % 3 then 1 else 0
 def I3 : AMat Int 3 := AMat.ofFn fun i j => if i = j then 0 else 5
+/-- the path 0 – 1 – 2 as an integer matrix -/
+def J3 : AMat Int 3 := AMat.ofFn fun i j => if i.val + j.val = 1 ∨ i.val + j.val = 3 then 1 else 0
 lemma K3_bin : Bin K3 := fun i j => by simp only [K3, AMat.get_ofFn]; split_ifs <;> simp
 lemma K3_symm : Symm K3 := fun i j => by simp only [K3, AMat.get_ofFn, eq_comm]
 lemma K3_diag : EmptyDiag K3 := fun i => by simp [K3]
@@ -226,6 +297,13 @@ example : C15.coreOfBd (binI I3) 2 = C15.coreOfBd I3 2 := (weights_ignored_kcore
 example : (Core.kcoreBd (binI I3) 2).kn = (Core.kcoreBd I3 2).kn := weights_ignored_kcore_kn I3 2 (by norm_num)
 example : (Core.kcoreBu (binI I3) 2).kn = (Core.kcoreBu I3 2).kn :=
   weights_ignored_kcore_kn_bu I3 (fun i j => by simp only [I3, AMat.get_ofFn, eq_comm]) 2 (by norm_num)
+example : LocalEff.localEffWei C3 C3 = LocalEff.localEffBin C3 := localeff_wei_eq_bin_on01 C3 C3_bin
+example : (rootMat K3).map (LocalEff.localEffWei K3) = some (LocalEff.localEffBin K3) := localeff_wei_eq_bin_on01_exec K3 K3_bin
+example : ∃ D, Dist.IsDist (Dist.hopLen (LocalEff.subMat (Cluster.adj C3) (LocalEff.nbrs (Cluster.adj C3) 0))) (Dist.lenFun D) ∧
+    LocalEff.effBinNode C3 0 = LocalEff.core (LocalEff.links (Cluster.adj C3) 0 _) (LocalEff.links (Cluster.adj C3) 0 _) D :=
+  localeff_bin_spec C3 0
+example : Measures.assortativityBin J3 0 = .ok (Measures.assortativityWei0 J3) :=
+  assort_wei_eq_bin_on01 J3 (fun i j => by simp only [J3, AMat.get_ofFn]; split_ifs <;> simp)
 /-- the reductions are not empty statements: the common value on the triangle is 1 -/
 example : (ccWu K3 K3)[(0 : Fin 3)] = some 1 := by
   rw [wu_eq_bu_on01 K3_bin K3_symm K3_diag, ccBu_bin_symm K3_bin K3_symm]
